@@ -104,8 +104,9 @@ def _run(inputs, code, env):
     return stk, err
 
 
-def _describe(stk, err):
-    """Neutral description of a run: ('ok', [(type, value, packed)...]) or ('fail', instr, payload)."""
+def _describe(stk, err, lambdas_literal=False):
+    """Neutral description of a run: ('ok', [(type, value, packed)...]) or ('fail', instr, payload).
+    lambdas_literal: lambda bodies were not re-annotated, so lambda values must be identical code (and pack identically)."""
     if err is not None:
         is_fw = len(err.args) >= 2 and err.args[-2] == "FAILWITH"
         return ("fail", xc._instr_of(err), err.args[-1] if is_fw else None)
@@ -121,8 +122,10 @@ def _describe(stk, err):
             v = rv.from_micheline(t, m) if not rv.contains_type(t, {"ticket", "lambda", "operation", "contract"}) else m
         except rv.Malformed:
             v = ("malformed", m)
+        if rv.contains_type(t, {"lambda"}) and not lambdas_literal:
+            v = "lambda-not-compared"
         packed = None
-        if rv.is_packable(t) and not rv.contains_type(t, {"lambda"}):
+        if rv.is_packable(t) and (lambdas_literal or not rv.contains_type(t, {"lambda"})):
             try:
                 packed = item.pack().hex()
             except Exception as e:
@@ -160,9 +163,10 @@ def _brief(d):
 
 def oracle_program(case):
     env = xc.env_from_json(case["env"])
-    base = _describe(*_run(case["inputs"], case["code"], env))
+    lit = not case.get("annotate_bodies", True)
+    base = _describe(*_run(case["inputs"], case["code"], env), lambdas_literal=lit)
     for k, var in enumerate(case["variants"]):
-        got = _describe(*_run(var["inputs"], var["code"], env))
+        got = _describe(*_run(var["inputs"], var["code"], env), lambdas_literal=lit)
         d = _diff(base, got)
         if d:
             names = sorted(gp.instr_names(case["code"]) & COMB_INSTR)
@@ -174,15 +178,18 @@ def oracle_program(case):
 
 @st.composite
 def program_cases(draw, size, depth):
-    prog = draw(gp.programs(size=size, depth=depth, profile=draw(st.sampled_from(["combs", "combs", "core"]))))
+    prog = draw(gp.programs(size=size, depth=depth, profile=draw(st.sampled_from(["combs", "combs", "core"])), keep_lambdas=True))
     names = gp.instr_names(prog["code"])
-    skip = bool(names & {"PACK", "FAILWITH"})  # lambda code is data there: annotations inside it are legitimately visible
+    # lambda code is data for PACK / FAILWITH / a lambda left on the stack: annotations written inside a lambda body are
+    # legitimately visible there. Half of the cases leave lambda bodies untouched and then compare lambda values literally.
+    annotate_bodies = draw(st.booleans()) and not (names & {"PACK", "FAILWITH"})
+    skip = not annotate_bodies
     variants = []
     for _ in range(2):
         code = draw(annotate_code(prog["code"], skip))
         inputs = [{"t": draw(gt.decorate(i["t"], False, 0.5, 0.2)), "v": i["v"]} for i in prog["inputs"]]
         variants.append({"code": code, "inputs": inputs})
-    return {"kind": "program", "inputs": prog["inputs"], "code": prog["code"], "variants": variants,
+    return {"kind": "program", "inputs": prog["inputs"], "code": prog["code"], "variants": variants, "annotate_bodies": annotate_bodies,
             "env": xc.env_to_json(draw(gp.env_strategy()))}
 
 
